@@ -29,7 +29,11 @@ RULE = ("assign_to_nearest_center with 1..8 centres that are frames or arbitrary
         "fit dtype (float32 / int32 / int64) cannot hold, with a user callable metric accepting mixed dtypes. reassign() with two or three "
         "(topology, trajectories, selection) sets over one system of several atom groups: the same topology file named for every set with "
         "different equal-sized selections (index ranges / chains), or one file per set; frames follow the centres only in the selected "
-        "group. non-trivial := >= 2 trajectories or >= 2 centres")
+        "group. A user callable that is NOT symmetric in (data, reference) -- one-sided excess, manhattan with reference-dependent weights, "
+        "an asymmetric integer table on an index column -- with the centres held in one 2-D ndarray (one case in five: a list of rows), mostly strictly more centres than "
+        "frames (built so that reading the callable the other way round gives another answer), directly and through predict of an estimator "
+        "whose fitted centres are kept as one array: judged against d(frame data, centre), the data first, one centre second. "
+        "non-trivial := >= 2 trajectories or >= 2 centres")
 SHARD = 100
 
 
@@ -179,7 +183,78 @@ def generate(rng, tier):
                       "cform": ["list", "traj", "traj-precentered"][bi % 3],
                       "sets": {"n": nsets, "cuts": cuts, "same_top": bi % 4 != 3, "sel": ["index", "chainid", "index"][bi % 3],
                                "order": rng.sample(range(nsets), nsets)}})
+    # a user callable that is NOT symmetric in (data, reference), centres held in one 2-D ndarray, mostly strictly more
+    # centres than frames; directly and through predict of an estimator whose centres are kept as one array
+    for i in range(24 if tier == "quick" else 200):
+        cases.append(_gen_asym(rng, i))
     return cases
+
+
+ASYM = ["excess", "refweight", "table"]
+
+
+def _asym_exact(c):
+    """exact integer version d(x, y) (x = frame data, y = reference) of the case's asymmetric callable"""
+    if c["asym"] == "excess":           # how far the frame overshoots the reference
+        return lambda x, y: sum(max(a - b, 0) for a, b in zip(x, y))
+    if c["asym"] == "refweight":        # manhattan with weights that depend on the reference
+        return lambda x, y: sum((1 + int(b) % 3) * abs(a - b) for a, b in zip(x, y))
+    T = c["T"]                          # a table with d(x -> y) != d(y -> x), on an index column
+    return lambda x, y: T[int(x[0])][int(y[0])]
+
+
+def _asym_metric(c):
+    """the callable handed to the code: distance_method(data, reference) -> one distance per row of data"""
+    if c["asym"] == "excess":
+        return lambda X, y: np.maximum(np.asarray(X, dtype=float) - np.asarray(y, dtype=float), 0.0).sum(axis=1)
+    if c["asym"] == "refweight":
+        def rw(X, y):
+            y = np.asarray(y, dtype=float)
+            return (np.abs(np.asarray(X, dtype=float) - y) * (1.0 + np.mod(y, 3.0))).sum(axis=1)
+        return rw
+    T = np.array(c["T"], dtype=float)
+    return lambda X, y: T[np.asarray(X)[:, 0].astype(int), int(np.asarray(y).ravel()[0])]
+
+
+def _gen_asym(rng, i):
+    fn = ASYM[i % 3]
+    kind = "predict" if (i // 3) % 2 else "assign"
+    more = i % 4 != 3
+    while True:
+        c = {"kind": kind, "asym": fn, "metric": "asym-" + fn, "cen_form": "array"}
+        if fn == "table":
+            N = rng.randint(6, 12)
+            c["T"] = [[0 if a == b else rng.randint(1, 12) for b in range(N)] for a in range(N)]
+            c["dtype"] = rng.choice(["float64", "int64"])
+            pick = lambda m: [[rng.randrange(N)] for _ in range(m)]
+            distinct = lambda m: [[v] for v in rng.sample(range(N), m)]
+        else:
+            dim = rng.randint(1, 3)
+            c["dtype"] = rng.choice(["float64", "float64", "float32", "int64"])
+            pick = lambda m: [[rng.randrange(10) for _ in range(dim)] for _ in range(m)]
+            distinct = lambda m: cc.gen_points(rng, m, dim, 10)
+        if kind == "assign":
+            n = rng.randint(1, 5)
+            k = rng.randint(n + 1, n + 6) if more else rng.randint(1, n)
+            c.update(X=pick(n), center_pts=pick(k), n=n)
+            if i % 5 == 4:
+                c["cen_form"] = "list"         # the same centres as a list of rows (the callables accept any array-like)
+            frames = c["X"]
+        else:
+            nfit = rng.randint(4, 6 if fn == "table" else 10)
+            k = rng.randint(3, min(8, nfit))
+            m = rng.randint(1, k - 1) if more else rng.randint(k, k + 4)
+            c.update(X=distinct(nfit), n=nfit, k=k, Y=pick(m), Ydtype=c["dtype"])
+            frames = c["Y"]
+        if not more or kind == "predict":
+            break
+        # the direction of the call decides: reading the callable the other way round gives another answer
+        d = _asym_exact(c)
+        fwd = [min((d(x, y), j) for j, y in enumerate(c["center_pts"])) for x in frames]
+        bwd = [min((d(y, x), j) for j, y in enumerate(c["center_pts"])) for x in frames]
+        if fwd != bwd:
+            break
+    return c
 
 
 def _gen_phist(rng, i):
@@ -396,28 +471,39 @@ def run_impl(c):
                     "unchanged": cc.xhash(X) == h0 and (hc is None or cc.xhash(cen) == hc)}
         if kind == "assign":
             X = cc.make_X(c)
-            dm = util._get_distance_method(cc.make_metric(c))
-            ref = util._get_distance_method(cc.make_metric(c, plain=True))
+            if c.get("asym"):
+                dm = ref = _asym_metric(c)
+            else:
+                dm = util._get_distance_method(cc.make_metric(c))
+                ref = util._get_distance_method(cc.make_metric(c, plain=True))
             cen = X[c["centers"]] if "centers" in c else np.array(c["center_pts"], dtype=X.dtype)
             if c.get("cen_form") == "list":
                 cen = [row for row in cen]
             h0 = cc.xhash(X)
+            hc = cc.xhash(cen) if isinstance(cen, np.ndarray) else None
             with cc.Watchdog():
                 a, d = util.assign_to_nearest_center(X, cen, dm)
             Xc = np.array(X, order="C", copy=True)       # the metric on the values: evaluated on a fresh contiguous copy
+            # always d(frame data, centre): the data first, one centre second, as the documented call has it
             return {"Mc": [[str(F(float(v))) for v in ref(Xc, np.array(y))] for y in cen], "asg": [int(v) for v in a],
-                    "dst": [str(F(float(v))) for v in d], "unchanged": cc.xhash(X) == h0}
+                    "dst": [str(F(float(v))) for v in d], "unchanged": cc.xhash(X) == h0 and (hc is None or cc.xhash(cen) == hc)}
         if kind == "predict":
             X = cc.make_X(c)
             Y = cc.layout_of(np.array(c["Y"], dtype=c.get("Ydtype") or X.dtype), c.get("layout"))
-            ref = util._get_distance_method(c["metric"])
-            metric = cc.make_metric(c)
+            if c.get("asym"):
+                ref = metric = _asym_metric(c)
+            else:
+                ref = util._get_distance_method(c["metric"])
+                metric = cc.make_metric(c)
             if c.get("mixed"):
                 # a user callable that accepts any mix of dtypes: the library metric on float64 copies of both arguments
                 lib = ref
                 ref = metric = lambda A, b: lib(np.array(A, dtype=np.float64, order="C"), np.array(b, dtype=np.float64, order="C"))
             with cc.Watchdog():
                 est = KC.KCenters(metric, n_clusters=c["k"]).fit(X)
+                if c.get("asym"):
+                    # the fitted centres kept as ONE 2-D array (as when centres are stored in / restored from an .npy file)
+                    est.result_ = est.result_._replace(centers=np.array(est.result_.centers))
                 h0 = cc.xhash(Y)
                 r = est.predict(Y)
             Yc = np.array(Y, order="C", copy=True)
@@ -681,6 +767,11 @@ def tags(c, r):
             t.append("md-trajectory-centres" if c["cen_form"] == "traj" else "md-trajectory-frames-list-centres")
             if c["cen_form"] == "traj" and len(c["centers"]) > c["n"]:
                 t.append("frame-by-frame-branch")
+    if c["kind"] in ("assign", "predict") and c.get("asym") and "Mc" in r:
+        t.append("asymmetric-callable-ndarray-centres" if c.get("cen_form") != "list" else "asymmetric-callable-list-centres")
+        t.append("asymmetric-callable-" + c["asym"])
+        if len(r["Mc"]) > len(r["asg"]):
+            t.append("asymmetric-callable-%s-more-centres-than-frames" % c["kind"])
     if c["kind"] == "phist" and "preds" in r:
         t.append("predict-history-" + c["est"])
         t.append("predict-history-ndarray" if "pts" in c else "predict-history-md-trajectory")
@@ -704,7 +795,9 @@ def tags(c, r):
     return t
 
 
-ESSENTIAL_TAGS = ["reassign-several-sets-same-topology-file", "partition-ndarray-centres-beyond-trajectory-0", "predict-wider-dtype-than-fit-float32",
+ESSENTIAL_TAGS = ["asymmetric-callable-assign-more-centres-than-frames", "asymmetric-callable-predict-more-centres-than-frames",
+                  "asymmetric-callable-excess", "asymmetric-callable-refweight", "asymmetric-callable-table",
+                  "reassign-several-sets-same-topology-file", "partition-ndarray-centres-beyond-trajectory-0", "predict-wider-dtype-than-fit-float32",
                   "predict-wider-dtype-than-fit-int32", "predict-wider-dtype-than-fit-int64", "assign-more-than-32-centres", "predict-more-than-32-centres", "non-contiguous-data", "buffer-reusing-metric",
                   "md-trajectory-centres", "frame-by-frame-branch", "predict-history-kcenters", "predict-history-khybrid", "predict-history-ndarray", "predict-history-md-trajectory",
                   "predict-short-after-refit", "predict-long-after-refit", "reassign-3+-batches",
